@@ -1395,8 +1395,9 @@ def op_dsel(st, o):
         if how["d"] >= nd:
             return "skipped"
         dim = mm.region.dims[how["d"]]
-        res = sut(h.obj.pad, {dim: (how["lo"], how["hi"])}, mode=how["mode"])
-        call = f"pad({dim}: ({how['lo']},{how['hi']}), {how['mode']})"
+        kw = {"constant_values": how["cv"]} if how["mode"] == "constant" and "cv" in how else {}
+        res = sut(h.obj.pad, {dim: (how["lo"], how["hi"])}, mode=how["mode"], **kw)
+        call = f"pad({dim}: ({how['lo']},{how['hi']}), {how['mode']}{', constant_values=' + str(how['cv']) if kw else ''})"
     elif t == "resample":
         n2 = [max(1, how["n"][k % len(how["n"])]) for k in range(nd)]
         res = sut(h.obj.resample, tuple(n2))
@@ -1420,7 +1421,8 @@ def op_dsel(st, o):
             i = idx[d] - lo  # index relative to the source along the padded axis
             j = list(idx)
             if mode == "constant":
-                return False
+                # "validity is transformed exactly as the data": the padding value given for the data pads the mask
+                return bool(how.get("cv", 0))
             if mode == "wrap":
                 j[d] = i % nsrc
             elif mode == "edge":
